@@ -31,13 +31,13 @@ CHECKS = {
    text="Single generated write transactions over fresh / one- / two- / three-level / mixed committed buckets; after every operation get, get_kv, scan, seek, range, buckets, kv_pairs, next_int of every touched bucket and ancestors are compared with the model overlay; then commit or rollback and re-check.",
    note="Model overlay = committed model clone + the transaction's ops.", ref="4/C07"),
  "C08": dict(level="exploration", engine="E1", technique="enumerative property testing: all neighbour-derived seek keys and all bound pairs x bound kinds on generated buckets, oracle = sorted-suffix rule / hand-written filter of the model",
-   text="For generated buckets (empty to three-level, committed and mid-transaction) every candidate key derived from the present keys is used for seek, and every pair of candidates x {included, excluded, unbounded}^2 for range (exhaustive on small buckets, sampled on large) through tuple and std range types and the to_buckets / to_kv_pairs filters, with repeated next() after exhaustion.",
+   text="For generated buckets (empty to three-level, committed and mid-transaction, plus one fixed bucket of 67 000 entries put by a single still-open transaction) every candidate key derived from the present keys is used for seek, and every pair of candidates x {included, excluded, unbounded}^2 for range (exhaustive on small buckets, sampled on large) through tuple and std range types and the to_buckets / to_kv_pairs filters, with repeated next() after exhaustion.",
    note="seek(absent) may land on predecessor or successor (both accepted).", ref="4/C08"),
  "C09": dict(level="exploration", engine="E4", technique="schedule enumeration (as C04) of read-modify-write writer threads and readers incl. file growth; oracles = mutual-exclusion flag, unique predecessor values / final counter, no all-blocked state, reader never blocked by an idle writer, termination within a step bound",
    text="2-3 writer threads increment a counter read inside their transaction while 1-2 readers run; the first commits grow a fresh 4-page file (exclusive map lock). All schedules with <= 1 preemption, then <= 2 (capped; thorough 3), then random / PCT schedules. Violations: two write transactions open at once, a lost update, a state where every live thread is blocked, a reader blocked while only an idle uncommitted writer exists (also when the blocking is invisible to the controller: watchdog), or an execution exceeding the step bound.",
    note="Liveness as bounded progress under explored schedules; fairness not modelled.", ref="4/C09"),
  "C10": dict(level="exploration", engine="E1+E2", technique="property testing over seeded long stationary workloads with a metamorphic bound: high-water mark bounded by measured live + dirty pages (independent parser after every commit)",
-   text="Seeded long workloads (fixed-size overwrite, variable-size overwrite/delete, bucket create/delete cycles; with reopen, rollbacks, a pinned reader, rolling young readers, and runs that begin with more than 1024 pages in the free set after a one-off bulk delete) are run for hundreds to thousands of transactions; after every commit the independent parser measures live pages, dirty pages and the high-water mark; the high-water mark must stay within a bound relative to measured live and dirty pages for every prefix of the run, a pinned reader must keep seeing its snapshot, and growth must stop once it closes.",
+   text="Seeded long workloads (fixed-size overwrite, variable-size overwrite/delete, bucket create/delete cycles, tiny values sharing leaves with values of 66-140 pages; with reopen, rollbacks, a pinned reader, rolling young readers, and runs that begin with more than 1024 pages in the free set after a one-off bulk delete) are run for hundreds to thousands of transactions; after every commit the independent parser measures live pages, dirty pages and the high-water mark; the high-water mark must stay within a bound relative to measured live and dirty pages for every prefix of the run, a pinned reader must keep seeing its snapshot, and growth must stop once it closes.",
    note="Bounds calibrated on the unchanged tree (plateau ~1.1-1.6x live; a free list that never releases exceeds the bound within ~100 transactions).", ref="4/C10"),
  "C11": dict(level="fault_enumeration", engine="E1+E2+E3", technique="fault injection enumerated over every I/O call of a target commit (LD_PRELOAD shim: EIO, ENOSPC, short write then error; RLIMIT_FSIZE for file extension), oracle = Err not panic, pre-or-post state on the same handle, independent parser, further commits and reopen match the model",
    text="A dry run counts the lseek/write/fsync calls a target commit issues; one worker process per (call, errno, short-write variant) then runs the same history with that call failing. The commit must return Err; the same handle must show exactly the pre- or post-transaction state, pass the independent parser and DB::check, accept 3-6 further generated transactions that match the model continued from the observed state, and reopen to the same. Single faults are exhaustive per target commit; pairs are sampled (a second fault, re-armed, in one of the next three commits on the same handle).",
@@ -45,8 +45,8 @@ CHECKS = {
  "C12": dict(level="fault_enumeration", engine="E1+E2", technique="fault enumeration: every single-byte damage at every offset of either header page (several byte values; all 255 on defined bytes in the thorough tier), zeroing, multi-byte overwrites and torn tails, after every commit count 0..N; oracle = dump equals the state of the intact header",
    text="For files after 0..N commits of generated histories every enumerated damage is applied to the newest or the older header page of a copy; opening must succeed and the full dump must equal the state recorded by the intact header whenever a byte the format defines changed (either state otherwise). Single faults are enumerated exhaustively for the offsets and values listed in the evidence.",
    note="Other header and all data pages intact; single-process open.", ref="4/C12"),
- "C13": dict(level="exploration", engine="E3+E5", technique="generated multi-process orchestrations (start offsets, hold times, forced orderings through LD_PRELOAD gates at libc boundaries); oracle = disjoint open intervals from monotonic timestamps, successor sees predecessor's marker, every process exits 0",
-   text="2-3 worker processes open the same path (existing or not yet created), commit a marker and close, under generated start offsets / hold times and with processes parked by the shim at open64, after open64, the creator's writes, fsync, mmap64 or close; all gate pairs x release orders for two processes; for three, structured chains (A parked while holding, B queued, C started only after A or B was released and has closed) plus seeded samples; every worker also makes two churn commits and the orchestrator verifies the final file in full. Open intervals must be pairwise disjoint, a later opener must see every earlier marker, and no open may fail or panic instead of waiting.",
+ "C13": dict(level="exploration", engine="E3+E5", technique="generated multi-process orchestrations (start offsets, hold times, forced orderings through LD_PRELOAD gates at libc boundaries, signal injection (handler without SA_RESTART) into openers blocked in flock); oracle = disjoint open intervals from monotonic timestamps, successor sees predecessor's marker, every process exits 0",
+   text="2-3 worker processes open the same path (existing or not yet created), commit a marker and close, under generated start offsets / hold times and with processes parked by the shim at open64, after open64, the creator's writes, fsync, mmap64 or close; all gate pairs x release orders for two processes; for three, structured chains (A parked while holding, B queued, C started only after A or B was released and has closed) plus seeded samples; a family of waiters receives 1-12 SIGUSR1 signals (handler without SA_RESTART), each sent only while /proc shows the thread inside flock(2), and retries an open that returns Interrupted; every worker also makes two churn commits and the orchestrator verifies the final file in full. Open intervals must be pairwise disjoint, a later opener must see every earlier marker, and no open may fail (other than with Interrupted in a signalled waiter, which retries) or panic instead of waiting.",
    note="flock is a raw syscall: its effect is observed, not the call; timing decides which interleaving is produced, not the verdict.", ref="4/C13"),
  "C14": dict(level="exploration", engine="E6", technique="compile-fail program generation: hand-written (type x escape route) corpus plus programs synthesised from rustdoc JSON of the public API, compiled with rustc against the freshly built rlib; programs that compile are linked and run in a remap / page-reuse probe",
    text="Every escape program must be rejected with a borrow / lifetime (or, for thread routes, Send / Sync) error; a program that compiles is run: it copies the escaped bytes, ends the transaction, churns the database so that the file is remapped and every freed page reused, and re-reads the bytes, which must neither fault nor change, and a new write transaction must still be able to start; thread routes that compile are violations; positive controls must compile and run. The surface-driven part enumerates every public method and trait impl on every type reachable from a transaction.",
